@@ -83,6 +83,16 @@ func toFixed(s string) (string, bool) {
 	return out, true
 }
 
+// longDigitCounts: total significant-digit counts for a literal built on a d-digit midpoint:
+// the next few, and a window around 800 (every count 794..806) plus some far larger ones.
+func longDigitCounts(t *rapid.T, d int) []int {
+	out := []int{d + 1, d + 2, d + rapid.IntRange(3, 40).Draw(t, "pad")}
+	for n := 794; n <= 806; n++ {
+		out = append(out, n)
+	}
+	return append(out, 767, 768, 769, 1000, 1599, 1600, 1601, rapid.IntRange(20, 2500).Draw(t, "digits"))
+}
+
 func splitmix(x uint64) uint64 {
 	x += 0x9e3779b97f4a7c15
 	x = (x ^ (x >> 30)) * 0xbf58476d1ce4e5b9
@@ -228,6 +238,34 @@ func TestC04(t *testing.T) {
 				vs = append(vs, f, f+"000001")
 			}
 			return vs
+		})
+		// 2b. halfway points whose deciding excess (or deficit) sits in the last of N significant
+		// digits, N around every mantissa-length limit of the multi-precision fallback (its
+		// digit buffer holds 800) and of the 19-digit fast paths
+		rapidLits("long-halfway", e.cfg.N(400, 60000), func(rt *rapid.T) []string {
+			x := drawFloat(rt)
+			if rapid.IntRange(0, 3).Draw(rt, "int?") == 0 {
+				x = float64(uint64(1)<<53 + 2*uint64(rapid.IntRange(0, 1<<20).Draw(rt, "odd"))) // tie goes down to an even integer
+			}
+			s := midpointDecimal(x)
+			i := strings.IndexByte(s, 'e')
+			m, ex := s[:i], s[i:]
+			d := len(m) - 1 // significant digits of the exact midpoint (m is d.ddd)
+			var out []string
+			for _, n := range longDigitCounts(rt, d) {
+				if n <= d {
+					continue
+				}
+				up := string(rune('1' + rapid.IntRange(0, 8).Draw(rt, "excess")))
+				out = append(out, m+strings.Repeat("0", n-d-1)+up+ex)
+				if last := m[len(m)-1]; last > '0' {
+					out = append(out, m[:len(m)-1]+string(last-1)+strings.Repeat("9", n-d)+ex)
+				}
+			}
+			if f, ok := toFixed(out[0]); ok {
+				out = append(out, f)
+			}
+			return out
 		})
 		// 3. every row of the powers-of-ten table (q = -348..347) and the fallback ranges beyond
 		if e.enumStage("table-rows", "for every decimal exponent q in [-400, 400]: 19-digit and shorter mantissas w with w*10^q nearest to a halfway point, and w-1, w+1", true) {
